@@ -24,6 +24,7 @@ def check(model, R, tier):
     R.analysed['backward_kernels'] = [k.qualname for k in kernels]
     K.check_dep(model, R, 'C02', kernels)
     K.check_scatter(model, R, kernels + [model.func('synapgrad.conv_tools.place_windows')], 'C02', floor=1)
+    K.check_viewstore(model, R, [f_ for f_ in model.module_functions('synapgrad.cpu_ops')] + ([f_ for f_ in model.module_functions('synapgrad.conv_tools')] if 'C02' == 'C02' else []), 'C02')
     K.check_literal_perm_pairs(model, R, 'C02', POOLS)
     K.check_axisgen(model, R, 'C02', ['synapgrad.cpu_ops.softmax_forward', 'synapgrad.cpu_ops.softmax_backward',
                                        'synapgrad.cpu_ops.log_softmax_forward', 'synapgrad.cpu_ops.log_softmax_backward'])
